@@ -184,23 +184,47 @@ def life_program(fam: str, port: int, ka: bool, kinds: str) -> dict:
     return p
 
 
+def life2_program(fam: str, port: int, kas: tuple, seq: tuple) -> dict:
+    """Two inverter objects constructed with the SAME arguments (host, port, address, timeout, retries) - a second object for
+    the same inverter - with their own keep-alive settings; seq = ((object, kind), ...)."""
+    p = hist_program(fam, port, "", 0)
+    import copy
+    inv0 = p["inv"][0]
+    inv0["keep_alive"] = kas[0]
+    inv1 = copy.deepcopy(inv0)
+    inv1["keep_alive"] = kas[1]
+    inv1["host"] = "inv0"
+    p["inv"] = [inv0, inv1]
+    p["calls"] = [{"api": "read_setting", "args": [f"modbus-{ {'S': S_ADDR, 'F': F_ADDR}[k] }"], "o": o} for o, k in seq]
+    p["case"] = {"case": "life", "what": f"two:{fam}:{port}:{kas}:" + "".join(f"{'AB'[o]}{k}" for o, k in seq), "ka": bool(kas[0])}
+    return p
+
+
 def run_life(prog: dict) -> dict:
+    """Per call: did it succeed, how many transports opened during calls of THIS object are open afterwards, which transport
+    carried its last transmission, the object's keep-alive setting."""
     from .inv_driver import run_program
     tr = run_program(prog)
-    opened: set = set()
+    owner: dict = {}
     steps = []
     last_tr = 0
     worst = 0
+    cur_o = 0
+    kas = [bool(i.get("keep_alive")) for i in prog["inv"]]
     for ev in tr["ev"]:
-        if ev["e"] == "OPEN":
-            opened.add(ev["tr"])
-            worst = max(worst, len(opened))
+        if ev["e"] == "CALL":
+            cur_o = ev.get("o", 0)
+        elif ev["e"] == "OPEN":
+            owner[ev["tr"]] = cur_o
+            worst = max(worst, max(sum(1 for x in owner.values() if x == o) for o in range(len(kas))))
         elif ev["e"] in ("CLOSE", "PEERCLOSE"):
-            opened.discard(ev["tr"])
+            owner.pop(ev["tr"], None)
         elif ev["e"] == "SEND":
             last_tr = ev["tr"]
         elif ev["e"] == "RET":
-            steps.append({"ok": bool(ev.get("ok")), "open": len(opened), "tr": last_tr})
+            o = ev.get("o", 0)
+            steps.append({"ok": bool(ev.get("ok")), "open": sum(1 for x in owner.values() if x == o), "tr": last_tr, "o": o,
+                          "ka": kas[o] if o < len(kas) else False})
     c = dict(prog["case"])
     c.update(steps=steps, worst=worst, status=tr["status"])
     return c
@@ -358,6 +382,15 @@ def extend(run: Run, prop: str, tier: str, rnd: random.Random) -> None:
                     h3 = [h for h in itertools.product(al, repeat=3) if any(k in COMPOSITE for k in h)]
                 for h in hs + h3:
                     progs.append(life_program("ET", port, ka, "".join(h)))
+        # a second inverter object for the same inverter (same constructor arguments), own keep-alive setting
+        al2 = [(0, "S"), (1, "S"), (0, "F"), (1, "F")]
+        for fam, port in (("ET", 8899), ("ET", 502), ("DT", 8899), ("ES", 8899)):
+            for kas in ((True, False), (False, True), (True, True), (False, False)):
+                seqs = [q for n in (2, 3) for q in itertools.product(al2, repeat=n)]
+                seqs += [q for q in itertools.product(al2, repeat=4)][:: (5 if quick else 1)]
+                for q in seqs:
+                    if len({o for o, _ in q}) == 2:
+                        progs.append(life2_program(fam, port, kas, q))
         cases += engine.parallel_map("harness.checks_api", "run_life", progs, procs=16, chunk=20)
     elif prop == "C08":
         # what the caller of the inverter API sees when the inverter refuses (exception code 2): every history of up to
